@@ -21,8 +21,8 @@ LEAN_PROPS = "Dashu.Props.C11"
 LEAN_AUDIT = "Dashu.Audit.C11"
 # the powi error bound builds on builder-float's C03 contracts (Dashu/Proofs/Float, imported read-only); it is kept
 # in a module of its own so that Props/C11 never depends on them
-GEN_PROPS = ["Dashu.Props.C11Powi"]
-GEN_AUDIT = ["Dashu.Audit.C11Powi"]
+GEN_PROPS = ["Dashu.Props.C11Powi", "Dashu.Props.C11Formulas", "Dashu.Props.C11Float"]
+GEN_AUDIT = ["Dashu.Audit.C11Powi", "Dashu.Audit.C11Formulas", "Dashu.Audit.C11Float"]
 JOBS = 14
 
 BASES = [2, 3, 10, 16, 36]
@@ -256,9 +256,9 @@ def powi_cases(rng, tier, n):
             k = -k
         if rng.random() < 0.1:
             d = ndigits(B, s)
-            yield ("c.powi", [fenc(B, s * B + rng.randrange(1, B), e - 1, 0, m), hx(k), dec(p)])
+            yield ("c.powi", [fenc(B, s * B + rng.randrange(1, B), e - 1, 0, m), "k:" + hx(k), dec(p)])
         else:
-            yield ("f.powi", [fenc(B, s, e, p, m), hx(k)])
+            yield ("f.powi", [fenc(B, s, e, p, m), "k:" + hx(k)])
 
 def powi_big_cases(rng, tier, n):
     """multi-word exponents where the result stays representable: base 1 +- B^-j with |k| * B^-j moderate"""
@@ -279,7 +279,7 @@ def powi_big_cases(rng, tier, n):
         s, e = (B ** j + 1, -j) if rng.random() < 0.5 else (B ** j - 1, -j)
         if rng.random() < 0.5:
             k = -k
-        yield ("f.powi", [fenc(B, s, e, p, m), hx(k)])
+        yield ("f.powi", [fenc(B, s, e, p, m), "k:" + hx(k)])
 
 def large_argument_cases(rng, tier):
     """exp / exp_m1 / powf whose argument reduction count is large: |x| from 1e3 to 1e12 (exp_m1 to 1e5) in
@@ -328,7 +328,56 @@ def sparse_power_cases(rng, tier):
                 for n in (2, 3, -2):
                     for (s, e) in ((B ** k + 1, -k), (B ** k + 1, 0), (B ** k - 1, -k)):
                         if rng.random() < (0.5 if tier == "quick" else 1.0):
-                            yield ("f.powi", [fenc(B, s if rng.random() < 0.8 else -s, e, p, m), hx(n)])
+                            yield ("f.powi", [fenc(B, s if rng.random() < 0.8 else -s, e, p, m), "k:" + hx(n)])
+
+def ln_scale_cases(rng, tier):
+    """ln of arguments of large or tiny magnitude at low and moderate precision: the term s*ln 2 (s = floor(log2 x))
+    dominates the result, so the constants ln 2 / ln 10 (iacoth) must carry enough guard digits of their own"""
+    reps = 1 if tier == "quick" else 4
+    for B in BASES:
+        for p in (1, 2, 3, 5, 10, 24):
+            for k in (-3000, -1000, -300, -100, -49, -20, 20, 49, 100, 300, 1000, 3000):
+                if abs(k) * math.log2(B) > (3400 if tier == "quick" else 12000):
+                    continue          # ln of such magnitudes takes seconds per case on the implementation side
+                for _ in range(reps):
+                    m = rng.choice(MODES)
+                    d = rng.choice([1, 1, p])
+                    s = rand_sig(rng, B, min(d, p))
+                    yield ("f.ln", [fenc(B, s, k, p, m)])
+                    if k > 0 and rng.random() < 0.3:
+                        yield ("f.ln_1p", [fenc(B, s, k, p, m)])
+
+def extreme_base_powf_cases(rng, tier):
+    """powf (and ln, base 2) of TINY and HUGE bases: exponent -2^k and +2^k, k = 10..24 — |ln x| itself has many
+    integer digits, so y*ln x needs them in the working precision whatever the sign of ln x; the result's
+    exponent is huge but well inside isize.  The model side keeps such a base as a float
+    (`Model/Trans/CertFloat.lean`): log (sig*B^ex) = log sig + ex*log B."""
+    ks = (10, 12, 14, 16, 18, 20, 22, 24) if tier == "quick" else tuple(range(10, 25))
+    cap = 2 ** 22 if tier == "quick" else 2 ** 25      # bits of B^|ex|: the implementation shifts by that much for B != 2
+    for B in BASES:
+        for k in ks:
+            ex = 2 ** k
+            if B not in (2, 16) and ex * math.log2(B) > cap:
+                continue
+            for p in (3, 16, 53):
+                for sign in (-1, 1):
+                    if sign > 0 and B != 2 and ex * math.log2(B) > 2 ** 13:
+                        # a HUGE base outside base 2 makes `ln` divide by 2^s (log.rs `x / (IBig::ONE << s)`), which
+                        # takes time cubic in the exponent (38 s for ln(11e16383) at 3 digits): C16 material, not C11
+                        continue
+                    m = rng.choice(MODES)
+                    # a short significand that is not a perfect power (so that no result is exactly representable)
+                    sg = rng.choice([3, 3, B + 1, B * B + B + 1, rand_sig(rng, B, min(p, 5))])
+                    if ndigits(B, sg) > p or sg in (1,):
+                        sg = 3 if B > 3 else (3 if B == 2 else 2)
+                    base = fenc(B, sg, sign * ex - rng.choice([0, 0, 1, 7]), p, m)
+                    ys = [Fraction(3, 4), Fraction(-3, 4), Fraction(7, 2),
+                          Fraction(rng.randrange(1, B), B ** rng.randrange(2, 6)) * rng.choice([1, -1])]
+                    for y in (ys if tier != "quick" else rng.sample(ys, 2)):
+                        t, f = round_frac(y, B, p)
+                        yield ("f.powf", [base, fenc(B, t, f, p, m)])
+                    if B == 2 and p > 3:
+                        yield ("f.ln", [base])
 
 def powf_cases(rng, tier, n):
     for _ in range(n):
@@ -384,10 +433,11 @@ def guard_cases(rng, tier):
                 yield ("f." + op, [fenc(B, "inf", 0, p, m)]); yield ("f." + op, [fenc(B, "-inf", 0, p, m)])
                 yield ("f." + op, [fenc(B, "inf", 0, 0, m)])
             for k in (0, 1, -1, 2, -2, 5):
-                yield ("f.powi", [x, hx(k)]); yield ("f.powi", [x0, hx(k)])
-                yield ("f.powi", [zero, hx(k)]); yield ("f.powi", [one, hx(k)])
-                yield ("f.powi", [fenc(B, "inf", 0, p, m), hx(k)])
-                yield ("c.powi", [fenc(B, *float_with_top(rng, B, 2 * p + 1, 1, 2 * p + 1), 0, m), hx(k), dec(p)])
+                hk = "k:" + hx(k)
+                yield ("f.powi", [x, hk]); yield ("f.powi", [x0, hk])
+                yield ("f.powi", [zero, hk]); yield ("f.powi", [one, hk])
+                yield ("f.powi", [fenc(B, "inf", 0, p, m), hk])
+                yield ("c.powi", [fenc(B, *float_with_top(rng, B, 2 * p + 1, 1, 2 * p + 1), 0, m), hk, dec(p)])
             neg = fenc(B, -rand_sig(rng, B, p), -p, p, m)
             half = fenc(B, *round_frac(Fraction(1, 2), B, p), p, m)
             for a, b in ((x, zero), (x, one), (zero, x), (zero, zero), (neg, x), (neg, one), (neg, zero), (neg, half),
@@ -469,6 +519,8 @@ def raw_cases(rng, tier):
     yield from unary_cases(rng, tier, 1300 if q else int(16000 * sc))
     yield from powi_cases(rng, tier, 350 if q else int(4000 * sc))
     yield from large_argument_cases(rng, tier)
+    yield from ln_scale_cases(rng, tier)
+    yield from extreme_base_powf_cases(rng, tier)
     yield from sparse_power_cases(rng, tier)
     yield from powi_big_cases(rng, tier, 60 if q else int(600 * sc))
     yield from powf_cases(rng, tier, 350 if q else int(4000 * sc))
@@ -566,7 +618,9 @@ def load_raw(ext):
 def with_claims(raw, obs):
     for (op, args), o in zip(raw, obs):
         if o.startswith("ok ") or o.startswith("panic ") or o.startswith("forms-disagree"):
-            yield Case(op, list(args) + ["|"] + o.split(" "))
+            # the claim is ONE token (so that ./check's shrinker, which edits bare hex arguments, never edits a
+            # claim: a shrunk case would carry a stale claim and a meaningless witness)
+            yield Case(op, list(args) + ["|", o.replace(" ", ",")])
         else:
             # hang / crash / missing: the harness does not re-run the input in the second pass
             yield Case("obs." + op, list(args) + ["|"] + o.split(" ")[:2])
@@ -580,12 +634,22 @@ def generate(rng, tier):
     raw = load_raw(".rawcase") + list(raw_cases(rng, tier))
     yield from with_claims(raw, observe(raw, per_case_timeout=60 if tier == "quick" else 300))
 
+def judge(c, ri, rm):
+    """property-level judge for a drifting MIRROR: the powi loop model (subject of Props/C11Powi) printed other
+    digits than the code, but the certificate accepted the code's result — the property holds on this input,
+    only the correspondence model<->code is broken"""
+    if " mirror-drift:" in rm and rm.split(" mirror-drift:")[0] == ri:
+        return "holds"
+    return "violates"
+
 def nontrivial(c):
     """a case whose answer is decided by the certificate (not by an entry guard)"""
     if "|" not in c.args:
         return False
     k = c.args.index("|")
     cl = c.args[k + 1:]
+    if len(cl) == 1:
+        cl = cl[0].split(",")
     return len(cl) == 5 and cl[0] == "ok" and cl[3] != "0"
 
 # ----------------------------------------------------------------------------- classes of known findings
@@ -682,7 +746,7 @@ def kf(cls, op, args, impl, model):
         # tracks inexactness and is NOT covered by this class.
         if op.endswith(".powi"):
             pre = args[:args.index("|")] if "|" in args else args
-            if not pre[1].startswith("-"):
+            if not pre[1].replace("k:", "").startswith("-"):
                 return False
         return viol and "Exact-flag-on-inexact-result value-within-1ulp" in model and impl.endswith(" Exact")
     req = model.startswith("required a-value-within-1ulp") and "log.rs:" in impl and "subtract_with_overflow" in impl
@@ -705,7 +769,13 @@ def kf(cls, op, args, impl, model):
         wide = op.endswith(".exp_m1") and "error<2ulp" in model and _ctx(op, args)[1] <= 24
         return (tiny or wide) and k_directed(op, args) and not large and not longer
     if cls == "low-precision":
-        return k_low_precision(op, args) and "error<2ulp" in model and not large and not longer
+        # only the directed modes: there the coarse working precision at p <= 3 lets the working value fall on the
+        # wrong side of a representable number by more than the sliver of the class above; in the two nearest modes
+        # an error of a whole ulp at any precision is a violation
+        # (measured on the repaired tree: beyond the sliver of the class above this happens for ln / ln_1p at ONE
+        #  digit only; exp_m1 is covered by the `wide` rule above)
+        return (op.endswith(".ln") or op.endswith(".ln_1p")) and _ctx(op, args)[1] == 1 and k_directed(op, args) \
+            and "error<2ulp" in model and not longer
     return False
 
 def kfc(cls, args, impl, model):
@@ -760,6 +830,17 @@ THEOREMS = [
     "Dashu.Props.C11Powi.workPrec_eq",
     "Dashu.Props.C11Powi.powi_model_reproduces",
     "Dashu.Props.C11Powi.powi_directed_counterexample",
+    "Dashu.Props.C11Powi.powi_neg_error",
+    "Dashu.Props.C11Powi.powi_neg_half_lt_ulp",
+    "Dashu.Props.C11Powi.coarseNone_sound",
+    "Dashu.Props.C11Formulas.iacoth_series",
+    "Dashu.Props.C11Formulas.ln2_formula",
+    "Dashu.Props.C11Formulas.ln10_formula",
+    "Dashu.Props.C11Formulas.ln_reduction",
+    "Dashu.Props.C11Formulas.ln_1p_reduction",
+    "Dashu.Props.C11Formulas.exp_reduction",
+    "Dashu.Props.C11Float.checkedPowfFloatScaled_sound",
+    "Dashu.Props.C11Float.checkedLnFloat_sound",
 ]
 
 REFINED = ["Context::exp_internal entry guards (assert_finite, assert_limited_precision, zero shortcut)",
@@ -768,8 +849,10 @@ REFINED = ["Context::exp_internal entry guards (assert_finite, assert_limited_pr
            "Context::powf entry (assert_finite_operands, assert_limited_precision, y = 0, y = 1, base = 0, negative base)",
            "Context::powi, non-negative exponent >= 2: the binary powering loop (sqr / mul at the working precision "
            "p + exp.bit_len + p.bit_len, final with_precision) is mirrored on builder-float's C03 model, tied to the code "
-           "digit for digit on every powi case, and carries a proved error bound (Props/C11Powi.lean)"]
-FRONTIER = ["the numerical bodies of exp_internal / ln_internal / iacoth / ln2 / ln10 / powi with a negative exponent / powf "
+           "digit for digit on every powi case, and carries a proved error bound (Props/C11Powi.lean)",
+           "Context::powi, negative exponent: reversed context at p + 2*bit_len p digits, inner non-negative power, repr_div, "
+           "final repr_round mirrored (Model/Trans/PowiNeg.lean), tied digit for digit, error bound + nearest-mode < 1 ulp proved"]
+FRONTIER = ["the numerical bodies of exp_internal / ln_internal / iacoth / ln2 / ln10 / powf "
             "are NOT mirrored: each result is certified a posteriori against a proved enclosure of the real value",
             "that the certificate succeeds on every input (i.e. that the heuristic guard digits always suffice) is NOT proved"]
 RULE = ("raw cases = entry-guard table (precision 0, +-inf, negative base, exact shortcuts; every base) + "
